@@ -264,8 +264,9 @@ def minimise(check, case, violation, prop, known, budget_s):
 # top level
 # ---------------------------------------------------------------------------
 def write_replay(prop, case, violation, digest, tree):
-    os.makedirs(os.path.join(VERIF, "replays"), exist_ok=True)
-    path = os.path.join(VERIF, "replays", f"{prop}-{case.get('seed', 0)}.json")
+    rdir = os.environ.get("VERIF_REPLAY_DIR") or os.path.join(VERIF, "replays")
+    os.makedirs(rdir, exist_ok=True)
+    path = os.path.join(rdir, f"{prop}-{case.get('seed', 0)}.json")
     with open(path, "w", encoding="utf-8") as fh:
         json.dump({"property": prop, "seed": case.get("seed"), "tree": tree, "case": case,
                    "violation": violation, "digest": digest}, fh, indent=1, sort_keys=True, default=str)
@@ -376,7 +377,8 @@ def run_check(prop, tier="quick", base_seed=None, workers=None, runs=None):
     if broken:
         print(f"HARNESS-ERROR property={prop} {broken}")
     wall = time.time() - t0
-    write_evidence(check, prop, tier, base_seed, total, wall, wall_search, tree, workers, n_runs, replay_path)
+    if not os.environ.get("VERIF_NO_EVIDENCE"):
+        write_evidence(check, prop, tier, base_seed, total, wall, wall_search, tree, workers, n_runs, replay_path)
     nontriv = len(total["nontrivial_keys"])
     print(f"{prop} tier={tier} runs={total['evaluations']}/{n_runs} nontrivial_distinct={nontriv} "
           f"incomplete={total['incomplete']} violations={total['violations']} known={sum(e['count'] for e in total['known_seen'].values())} "
